@@ -31,6 +31,25 @@ class MockKmerFinder:
         return True
 
 
+class ShortReadKmerFinder:
+    """
+    Wrap a k-mer finder for an adapter that is aligned semiglobally ('anywhere').
+
+    A read that lies entirely within such an adapter can match it without
+    containing any of the searched k-mers at the searched positions, so reads
+    that are short enough for this to happen are never filtered out.
+    """
+
+    def __init__(self, kmer_finder, min_length: int):
+        self.kmer_finder = kmer_finder
+        self.min_length = min_length
+
+    def kmers_present(self, sequence: str):
+        if len(sequence) < self.min_length:
+            return True
+        return self.kmer_finder.kmers_present(sequence)
+
+
 class InvalidCharacter(Exception):
     pass
 
@@ -632,12 +651,16 @@ class SingleAdapter(Adapter, ABC):
         if self._debug:
             print(kmer_probability_analysis(positions_and_kmers))
         try:
-            return KmerFinder(
+            kmer_finder = KmerFinder(
                 positions_and_kmers, self.adapter_wildcards, self.read_wildcards
             )
         except ValueError:
             # Kmers too long.
             return MockKmerFinder()
+        if back_adapter and front_adapter:
+            max_errors = int(len(sequence) * self.max_error_rate)
+            return ShortReadKmerFinder(kmer_finder, len(sequence) + max_errors)
+        return kmer_finder
 
     def __repr__(self):
         return (
